@@ -14,7 +14,7 @@ from fractions import Fraction
 
 from .. import symx, terms as T
 from ..frontend import AnalysisError, norm_text
-from ..rules import outcomes, ret_term
+from ..rules import outcomes, ret_term, D2R
 from ..opconf import Conformance
 from .. import effects, effect_engine, guards
 
@@ -33,12 +33,83 @@ def run(repo, rep, tier):
     rep.undecided = ["congruence mod 360 to 1e-9", "sign for every combination of sexagesimal pieces", "to_positive() for tiny negatives"]
     rep.assumptions = ["operator dispatch goes to the class methods (no competing reflected method on int/float)"]
     r_rep(repo, rep)
+    r_forms(repo, rep)
     r_opconf(repo, rep)
     fam = [(MOD, q) for q in repo.mod(MOD).functions if q.startswith(CLS + ".") and "<locals>" not in q]
     effects.check_functions(repo, rep, fam)
     fresh_results(repo, rep)
     guards.check_functions(repo, rep, fam)
     return "other"
+
+
+def r_forms(repo, rep):
+    """R-FORMS: the same number(s) given as separate arguments, in a tuple or in a list - with or without radians=True -
+    must set the same value.  Angle.set is evaluated symbolically for every input form (a call of set() on itself is unfolded
+    once) and the stored terms are compared."""
+    from ..rules import outcomes
+    from ..poly import Algebra
+    rep.rule("R-FORMS", "every input form of Angle.set (separate values / tuple / list, radians flag on or off) stores the same value for the same numbers")
+    q = CLS + ".set"
+    site = "%s.%s" % (MOD, q)
+    fn = repo.func(MOD, q)
+    if fn.args.vararg is None or fn.args.kwarg is None:
+        rep.inconcl("R-FORMS", site, "set() no longer takes (*args, **kwargs)")
+        return
+    va, kwn = fn.args.vararg.arg, fn.args.kwarg.arg
+    syms = [T.sym("NUM_V%d" % i) for i in range(3)]
+    alg = Algebra(atomize=True)
+    n = 0
+    bad = []
+    unknown = []
+    for k in (1, 2, 3):
+        vals = tuple(syms[:k])
+        for rad in ((True, False) if k == 1 else (False,)):
+            kw = ("dict", ((("str", "radians"), ("bool", True)),)) if rad else ("dict", ())
+            stored = {}
+            for form, args in (("separate values", ("tuple",) + vals), ("a tuple", ("tuple", ("tuple",) + vals)), ("a list", ("tuple", ("list",) + vals))):
+                try:
+                    outs = [o for o in outcomes(repo, MOD, q, arg_terms={"self": T.sym("self"), va: args, kwn: kw}) if o.kind != "raise"]
+                except AnalysisError as e:
+                    unknown.append("%s: %s" % (form, e))
+                    continue
+                live = [o for o in outs if o.cond == ("bool", True)]
+                if len(live) != 1 or "self._deg" not in live[0].env:
+                    unknown.append("%d value(s) as %s%s: no single path that stores a value" % (k, form, ", radians=True" if rad else ""))
+                    continue
+                stored[form] = live[0].env["self._deg"]
+                n += 1
+            base = stored.get("separate values")
+            if base is None:
+                continue
+            if k == 1:
+                want = T.call("red", T.mul(syms[0], T.power(D2R, T.num(-1))) if rad else syms[0])
+                try:
+                    okb = base == want or alg.equal(base[2] if base[0] == "call" and base[1] == "red" else base, want[2])
+                except Exception:
+                    okb = None
+                if okb is False:
+                    bad.append(("scalar", rad, "a single number%s stores %s, expected %s" % (" with radians=True" if rad else "", T.show(base)[:60], T.show(want)[:60])))
+            for form, v in stored.items():
+                if form == "separate values":
+                    continue
+                same = v == base
+                if not same:
+                    try:
+                        same = alg.equal(v, base)
+                    except Exception:
+                        same = None
+                if same is False:
+                    bad.append((form, rad, "%d value(s) given as %s%s store %s, but %s when given as separate values"
+                                % (k, form, " with radians=True" if rad else "", T.show(v)[:70], T.show(base)[:70])))
+                elif same is None:
+                    unknown.append("%d value(s) as %s: stored terms not comparable" % (k, form))
+    rep.floor("input forms of Angle.set evaluated", n, 9)
+    for form, rad, msg in bad:
+        rep.violation("R-FORMS", site, "form:%s:%s" % (form, "radians" if rad else "degrees"), msg, obligation=True)
+    for u in unknown[:3]:
+        rep.inconcl("R-FORMS", site, u)
+    if not bad and not unknown:
+        rep.ok("R-FORMS", site, "%d input forms: separate values, tuple and list agree, with and without radians=True" % n, obligation=True)
 
 
 def r_rep(repo, rep):
